@@ -58,3 +58,16 @@ macro_rules! for_each_n {
         }
     }};
 }
+
+/// all tuple lengths of the property's quantifier in every tier (for harnesses cheap enough: C07, C09)
+#[macro_export]
+macro_rules! for_each_n_all {
+    ($f:ident $(, $arg:expr)*) => {{
+        $f::<1>($($arg),*);
+        $f::<2>($($arg),*);
+        $f::<3>($($arg),*);
+        $f::<5>($($arg),*);
+        $f::<8>($($arg),*);
+        $f::<13>($($arg),*);
+    }};
+}
